@@ -281,6 +281,9 @@ class Check:
             with open(os.path.join(self.replay_dir, 'all.jsonl'), 'w') as f:
                 for cid, det in self.violations:
                     f.write(json.dumps({'case': cid, 'detail': det}, default=str) + '\n')
+        if os.path.isdir(self.replay_dir):
+            for f_ in os.listdir(self.replay_dir):          # replay files of earlier runs would be mistaken for this run's
+                if re.fullmatch(r'v\d+\.json', f_): os.unlink(os.path.join(self.replay_dir, f_))
         if nviol:
             os.makedirs(self.replay_dir, exist_ok=True)
             for i, (cid, det) in enumerate(self.violations[:50]):
